@@ -435,6 +435,7 @@ func (s *Server) Reset(reason string, timeoutMs int64) (*statejson.ResetDescript
 	}()
 
 	done := <-s.ResetDoneChan
+	verifhook.Point("serverReset.beforeFinalRelease")
 	s.Release()
 
 	if done.ErrorType != "" {
@@ -758,6 +759,7 @@ func (s *Server) Invoke(responseWriter http.ResponseWriter, invoke *interop.Invo
 	case err = <-releaseErrChan:
 		log.Debug("Invoke() release error")
 	case <-releaseSuccessChan:
+		verifhook.Point("invoke.beforeFinalRelease")
 		s.Release()
 		log.Debug("Invoke() success")
 	}
